@@ -862,6 +862,57 @@ func c14r7(c *Ctx) {
 			if lst == nil {
 				lst = lenOf(f, origin(f, val)) // the position handed to a registering helper
 			}
+			// the other spelling of "append": a write cursor — `indices[id] = k; list[k] = txn; k++`, the list cut to
+			// `list[:k]` afterwards; k only ever set to 0 or advanced by one
+			var cursor types.Object
+			if lst == nil {
+				if v, ok := f.ObjOf(ast.Unparen(val)).(*types.Var); ok && !v.IsField() && v.Parent() != v.Pkg().Scope() {
+					okCursor := true
+					for _, w := range f.WritesIn(f.Body, false) {
+						if f.ObjOf(w.LHS) != types.Object(v) {
+							continue
+						}
+						if w.RHS == nil {
+							if _, isRange := w.Stmt.(*ast.RangeStmt); isRange || w.Tok == token.DEC {
+								okCursor = false
+							}
+							continue // k++ (or a declaration without value)
+						}
+						if cv, isC := f.ConstInt(w.RHS); isC && ((cv == 0 && w.Tok != token.ADD_ASSIGN) || (cv == 1 && w.Tok == token.ADD_ASSIGN)) {
+							continue
+						}
+						if be, ok := ast.Unparen(w.RHS).(*ast.BinaryExpr); ok && be.Op == token.ADD && f.ObjOf(be.X) == types.Object(v) {
+							if cv, isC := f.ConstInt(be.Y); isC && cv == 1 {
+								continue
+							}
+						}
+						okCursor = false
+					}
+					if okCursor {
+						for _, w := range f.WritesIn(f.Body, false) {
+							if ix, ok := ast.Unparen(w.LHS).(*ast.IndexExpr); ok && f.ObjOf(ix.Index) == types.Object(v) {
+								if fl := f.FieldOf(ix.X); fl == pf.txns || fl == pf.v2txns {
+									// the list must be cut to the cursor
+									for _, w2 := range f.WritesIn(f.Body, false) {
+										if se, ok := ast.Unparen(w2.RHS).(*ast.SliceExpr); w2.RHS != nil && ok && sameLvalue(f, w2.LHS, ix.X) && sameLvalue(f, se.X, ix.X) && se.Low == nil && se.High != nil && f.ObjOf(se.High) == types.Object(v) {
+											// and this store must be the one that follows this registration (same iteration)
+											hd, _, _ := enclosingRange(f, n)
+											var from []*cfgx.Visit
+											for _, e := range n.Succs {
+												from = append(from, cfgx.StartAfter(e, 0))
+											}
+											sn := g.NodeContaining(w.LHS.Pos())
+											if _, ok := g.Reach(from, func(m *cfgx.Node) bool { return m == hd })[sn]; ok || sn == n {
+												cursor, lst = v, ix.X
+											}
+										}
+									}
+								}
+							}
+						}
+					}
+				}
+			}
 			if lst == nil {
 				ob.Bad(nil, "the position stored for an id at %s is not the length of the list the transaction is appended to", c.P.Pos(n.Pos()))
 				continue
@@ -893,6 +944,13 @@ func c14r7(c *Ctx) {
 					return false
 				}
 				for _, w := range f.WritesIn(m.AST, false) {
+					if cursor != nil {
+						// the increment that publishes the slot; the store itself is checked below
+						if f.ObjOf(w.LHS) == cursor {
+							return true
+						}
+						continue
+					}
 					if !sameLvalue(f, w.LHS, lst) || w.RHS == nil {
 						continue
 					}
@@ -927,6 +985,28 @@ func c14r7(c *Ctx) {
 					if _, _, again := isReg(m); again {
 						leak, what = v, "another id is registered"
 					}
+				}
+			}
+			if leak == nil && cursor != nil {
+				// between the registration and the increment the transaction is stored at the cursor
+				stores := func(m *cfgx.Node) bool {
+					if m.AST == nil {
+						return false
+					}
+					for _, w := range f.WritesIn(m.AST, false) {
+						if ix, ok := ast.Unparen(w.LHS).(*ast.IndexExpr); ok && sameLvalue(f, ix.X, lst) && f.ObjOf(ix.Index) == cursor && w.RHS != nil && (txn == nil || f.ObjOf(w.RHS) == txn) {
+							return true
+						}
+					}
+					return false
+				}
+				for m, v := range g.Reach(st, stores) {
+					if !stores(m) && appends(m) {
+						leak, what = v, "the cursor advances"
+					}
+				}
+				if stores(n) {
+					leak = nil
 				}
 			}
 			if leak != nil {
